@@ -401,10 +401,10 @@ impl SyncResponder {
                 commands.len()
             );
         }
-        let mut have_locations: Vec<Location, COMMAND_SAMPLE_MAX> = Vec::new();
+        let mut have_locations: alloc::vec::Vec<Location> = alloc::vec::Vec::new();
         for &addr in commands {
             if let Some(location) = storage.get_location(addr, &mut buffers.primary)? {
-                let _ = have_locations.push(location);
+                have_locations.push(location);
             }
         }
 
@@ -465,6 +465,7 @@ impl SyncResponder {
                 // covered if not yet visited.
                 for prior in segment.prior() {
                     heads.push_covered(prior, true)?;
+                    Self::note_covered(&mut have_locations, have_cursor, prior);
                 }
                 // Early termination: if all remaining heads are covered, stop.
                 // Every remaining path leads to segments the peer already has.
@@ -507,6 +508,7 @@ impl SyncResponder {
                 // so its priors are reachable.
                 for prior in segment.prior() {
                     heads.push_covered(prior, true)?;
+                    Self::note_covered(&mut have_locations, have_cursor, prior);
                 }
 
                 // If the peer doesn't have the whole segment (have_location
@@ -548,6 +550,18 @@ impl SyncResponder {
         collected.sort();
 
         Ok(collected)
+    }
+
+    /// Records that the peer holds `segment` up to `loc`.
+    ///
+    /// The traversal queue keeps one entry per segment and drops a covered
+    /// push whose max cut is below an uncovered entry of the same segment, so
+    /// the coverage of a segment prefix would otherwise be lost and the whole
+    /// segment, and everything below it, be treated as needed.
+    fn note_covered(have_locations: &mut alloc::vec::Vec<Location>, from: usize, loc: Location) {
+        let tail = have_locations.get(from..).unwrap_or(&[]);
+        let pos = tail.partition_point(|h| h.max_cut >= loc.max_cut);
+        have_locations.insert(from.saturating_add(pos), loc);
     }
 
     fn get_next(
